@@ -57,6 +57,11 @@ def run(tier):
             vlib.validate_runs(rep, "KsTrace", "KsTrace", tr, wd, f"twokey_{n}shards", dev_cfgs=DEV, describe=kc.DESCRIBE, strip=("s",))
             os.remove(tr)
         tr = os.path.join(wd, f"scan{n}.ndjson")
+        # MULTI / EXEC replay on N shards (bodies with multi-key and whole-keyspace commands, no WATCH)
+        tx = os.path.join(wd, f"txn{n}.ndjson")
+        vlib.vh(["conn", "txn", "--shards", n, "--nowatch", "1", "--seed", vlib.seed() * 10 + n, "--n", 1500 if thorough else 400, "--out", tx])
+        vlib.validate_runs(rep, "ConnTrace", "ConnTrace", tx, wd, f"txn_{n}shards", describe="transaction on N shards: {what}", strip=("s",))
+        os.remove(tx)
         vlib.vh(["shard", "scan", "--shards", n, "--out", tr])
         vlib.validate_runs(rep, "KsTrace", "KsTrace", tr, wd, f"scan_{n}shards", dev_cfgs=DEV, describe=kc.DESCRIBE, strip=("s", "keys", "returned"))
     rep.notes["steps_by_entry_path"] = paths
